@@ -416,11 +416,17 @@ def check_comp(job, res, attribute=True):
 
     # ---- element modes ------------------------------------------------------
     take_t, item_t = cat["take"]["first_n"], cat["take"]["item_n"]
+    item_sw = cat["take"].get("item_n_swapped")
     for n in ns:
-        for mode, suffix, b, want in (
+        modes = [
             ("first-n element", take_t.format(n=n), bound(n), None if ref_vals is None else ref_vals[:n]),
             ("item-n element", item_t.format(n=n), bound(n + 1), None if ref_vals is None or n >= len(ref_vals) else ref_vals[n]),
-        ):
+        ]
+        if item_sw and n % 5 == 2:
+            # the index element with its operands the other way round (number below the list)
+            modes.append(("item-n element, operands swapped", item_sw.format(n=n), bound(n + 1),
+                          None if ref_vals is None or n >= len(ref_vals) else ref_vals[n]))
+        for mode, suffix, b, want in modes:
             src = Src(shape, cap, isinf)
             o = execute(program, src, ("prog", suffix))
             c["element_take_runs"] += 1
@@ -481,6 +487,11 @@ def run_unit(unit):
            "counters": {"pull_checks": 0, "value_checks": 0, "compositions_run": 0, "element_take_runs": 0},
            "samples": []}
     for job in unit["jobs"]:
+        if len(res["violations"]) >= 3:
+            # a broken tree fails thousands of compositions (each costing a pull-cap run and a culprit
+            # search): three witnesses per unit are enough, the rest is counted
+            res["skips"]["skipped-after-3-witnesses-in-unit"] = res["skips"].get("skipped-after-3-witnesses-in-unit", 0) + 1
+            continue
         check_comp(job, res)
     res.pop("_seen", None)
     return res
